@@ -179,34 +179,18 @@ theorem replies_evs (j : Nat) (evs : List (Ev S)) : (evs.map (Out.ev j)).filterM
   | nil => rfl
   | cons e r ih => simp_all [replyOf, List.filterMap_cons]
 
-/-! ## `(*watcher).update` when the callback does not call its own cancel -/
+/-! ## `(*watcher).update` never blocks -/
 
-def cbNR (c : List Act) : Prop := c.all (fun a => a != .reenter) = true
-def NR (ws : List (Watcher S)) : Prop := ∀ w ∈ ws, cbNR w.cb
-
-theorem cbNR_tail {c : List Act} (h : cbNR c) : cbNR c.tail := by
-  cases c with
-  | nil => exact h
-  | cons a t => simp only [cbNR, List.all_cons, Bool.and_eq_true] at h; exact h.2
-
-theorem wUpdate_nr (w : Watcher S) (g : S) (h : cbNR w.cb) :
-    (wUpdate w g).blocked = false ∧ cbNR (wUpdate w g).cb := by
+theorem wUpdate_not_blocked (w : Watcher S) (g : S) : (wUpdate w g).blocked = false := by
   unfold wUpdate
   cases w.expr g with
-  | none => exact ⟨rfl, h⟩
+  | none => rfl
   | some v =>
-    cases hc : w.cb with
-    | nil => simp [cbNR]
-    | cons a t =>
-      have ht : cbNR t := by have := cbNR_tail h; rw [hc] at this; exact this
-      cases a with
-      | ok => exact ⟨rfl, ht⟩
-      | err => exact ⟨rfl, ht⟩
-      | panic => exact ⟨rfl, ht⟩
-      | reenter => rw [hc] at h; simp [cbNR] at h
+    simp only
+    cases w.cb.headD .ok <;> rfl
 
 /-- what the specification does with a live observer is what `update` does -/
-theorem deliver_eq (i : Nat) (e : S → Option S) (c : List Act) (l : List (Ev S)) (g : S) (h : cbNR c) :
+theorem deliver_eq (i : Nat) (e : S → Option S) (c : List Act) (l : List (Ev S)) (g : S) :
     Spec.deliver e c l g =
       if (wUpdate ⟨i, e, c⟩ g).ok then .live e (wUpdate ⟨i, e, c⟩ g).cb (l ++ (wUpdate ⟨i, e, c⟩ g).evs)
       else .dead (l ++ (wUpdate ⟨i, e, c⟩ g).evs) := by
@@ -222,32 +206,29 @@ theorem deliver_eq (i : Nat) (e : S → Option S) (c : List Act) (l : List (Ev S
       | ok => simp
       | err => simp
       | panic => simp
-      | reenter => simp [cbNR] at h
+      | reenter => simp
 
 /-- the entry the range loop leaves in the map for `w` -/
 def upd1 (g : S) (w : Watcher S) : Option (Watcher S) :=
   if (wUpdate w g).ok then some ⟨w.id, w.expr, (wUpdate w g).cb⟩ else none
 
-theorem rangeUpdate_spec (g : S) : ∀ (l : List (Watcher S)), (ids l).Nodup → NR l →
+theorem rangeUpdate_spec (g : S) : ∀ (l : List (Watcher S)), (ids l).Nodup →
     (rangeUpdate g l).blocked = false ∧
     (∀ i, mapGet (rangeUpdate g l).ws i = (mapGet l i).bind (upd1 g)) ∧
     (∀ i, logOf i (rangeUpdate g l).outs = match mapGet l i with
         | some w => (wUpdate w g).evs
         | none => []) ∧
     (rangeUpdate g l).outs.filterMap replyOf = [] ∧
-    (ids (rangeUpdate g l).ws).Sublist (ids l) ∧ NR (rangeUpdate g l).ws
-  | [], _, _ => by
-    refine ⟨rfl, fun i => rfl, fun i => rfl, rfl, List.Sublist.refl _, ?_⟩
-    intro w hw; simp [rangeUpdate] at hw
-  | w :: r, hnd, hnr => by
-    have hw : cbNR w.cb := hnr w (List.mem_cons_self ..)
-    have hr : NR r := fun x hx => hnr x (List.mem_cons_of_mem _ hx)
+    (ids (rangeUpdate g l).ws).Sublist (ids l)
+  | [], _ => by
+    exact ⟨rfl, fun i => rfl, fun i => rfl, rfl, List.Sublist.refl _⟩
+  | w :: r, hnd => by
     simp only [ids, List.map_cons, List.nodup_cons] at hnd
-    obtain ⟨hb, hcb⟩ := wUpdate_nr w g hw
-    obtain ⟨ih1, ih2, ih3, ih4, ih5, ih6⟩ := rangeUpdate_spec g r hnd.2 hr
+    have hb := wUpdate_not_blocked w g
+    obtain ⟨ih1, ih2, ih3, ih4, ih5⟩ := rangeUpdate_spec g r hnd.2
     have hnone : mapGet r w.id = none := mapGet_none_of_not_mem r w.id hnd.1
     simp only [rangeUpdate, hb, Bool.false_eq_true, ↓reduceIte]
-    refine ⟨ih1, ?_, ?_, ?_, ?_, ?_⟩
+    refine ⟨ih1, ?_, ?_, ?_, ?_⟩
     · intro i
       rw [mapGet_cons]
       by_cases hi : w.id = i
@@ -270,13 +251,6 @@ theorem rangeUpdate_spec (g : S) : ∀ (l : List (Watcher S)), (ids l).Nodup →
     · by_cases hok : (wUpdate w g).ok = true
       · simp only [hok, ↓reduceIte, ids, List.map_cons]; exact List.Sublist.cons_cons _ ih5
       · simp only [hok, Bool.false_eq_true, ↓reduceIte, ids, List.map_cons]; exact List.Sublist.cons _ ih5
-    · intro x hx
-      by_cases hok : (wUpdate w g).ok = true
-      · simp only [hok, ↓reduceIte, List.mem_cons] at hx
-        rcases hx with rfl | hx
-        · exact hcb
-        · exact ih6 x hx
-      · simp only [hok, Bool.false_eq_true, ↓reduceIte] at hx; exact ih6 x hx
 
 theorem closeAll_spec : ∀ (l : List (Watcher S)), (ids l).Nodup →
     (∀ i, logOf i (closeAll l) = match mapGet l i with
@@ -306,10 +280,9 @@ structure Inv (s : State S) : Prop where
   nodup : (ids s.watchers).Nodup
   bound : ∀ w ∈ s.watchers, 1 ≤ w.id ∧ w.id ≤ s.lastID
   fresh : ∀ i, ¬ (1 ≤ i ∧ i ≤ s.lastID) → logOf i s.trace = []
-  nr : NR s.watchers
 
 theorem inv_init (g0 : S) : Inv (init g0) :=
-  ⟨rfl, List.nodup_nil, fun _ h => by simp [init] at h, fun _ _ => rfl, fun _ h => by simp [init] at h⟩
+  ⟨rfl, List.nodup_nil, fun _ h => by simp [init] at h, fun _ _ => rfl⟩
 
 def absObs (ws : List (Watcher S)) (n : Nat) (tr : List (Out S)) (i : Nat) : Spec.Obs S :=
   match mapGet ws i with
@@ -340,12 +313,12 @@ theorem nodup_mapPut {ws : List (Watcher S)} (w : Watcher S) (h : (ids ws).Nodup
   intro e; subst e
   exact not_mem_ids_mapDel ws w.id ha
 
-theorem step_add (s : State S) (e : S → Option S) (c : List Act) (hI : Inv s) (hc : cbNR c) :
+theorem step_add (s : State S) (e : S → Option S) (c : List Act) (hI : Inv s) :
     Inv (step s (.add e c)) ∧ abs (step s (.add e c)) = Spec.step (abs s) (.add e c) := by
-  obtain ⟨hb, hcb⟩ := wUpdate_nr ⟨s.lastID + 1, e, c⟩ s.global hc
+  have hb := wUpdate_not_blocked ⟨s.lastID + 1, e, c⟩ s.global
   have hfr : logOf (s.lastID + 1) s.trace = [] := hI.fresh _ (by omega)
   simp only [step, hI.run, hb, Bool.false_or, Bool.false_eq_true, ↓reduceIte]
-  generalize hu : wUpdate ⟨s.lastID + 1, e, c⟩ s.global = u at hcb
+  generalize hu : wUpdate ⟨s.lastID + 1, e, c⟩ s.global = u
   have hdel : ∀ x, x ∈ (if u.ok = true then mapPut s.watchers ⟨s.lastID + 1, e, u.cb⟩
         else mapDel (mapPut s.watchers ⟨s.lastID + 1, e, u.cb⟩) (s.lastID + 1)) →
       x ∈ s.watchers ∨ x = ⟨s.lastID + 1, e, u.cb⟩ := by
@@ -353,7 +326,7 @@ theorem step_add (s : State S) (e : S → Option S) (c : List Act) (hI : Inv s) 
     by_cases hok : u.ok = true
     · simp only [hok, ↓reduceIte] at hx; exact mem_mapPut hx
     · simp only [hok, Bool.false_eq_true, ↓reduceIte] at hx; exact mem_mapPut (mem_mapDel.1 hx).1
-  refine ⟨⟨rfl, ?_, ?_, ?_, ?_⟩, ?_⟩
+  refine ⟨⟨rfl, ?_, ?_, ?_⟩, ?_⟩
   · show (ids (if u.ok = true then _ else _)).Nodup
     by_cases hok : u.ok = true
     · simp only [hok, ↓reduceIte]; exact nodup_mapPut _ hI.nodup
@@ -371,10 +344,6 @@ theorem step_add (s : State S) (e : S → Option S) (c : List Act) (hI : Inv s) 
     have h2 : ¬ s.lastID + 1 = i := by
       intro h; apply hi; subst h; exact ⟨by omega, Nat.le_refl _⟩
     rw [logOf_append, logOf_evs, hI.fresh i h1]; simp [h2]
-  · intro x hx
-    rcases hdel x hx with h | h
-    · exact hI.nr x h
-    · subst h; exact hcb
   · apply spec_ext
     · rfl
     · rfl
@@ -385,7 +354,7 @@ theorem step_add (s : State S) (e : S → Option S) (c : List Act) (hI : Inv s) 
       by_cases hi : i = s.lastID + 1
       · subst hi
         simp only [↓reduceIte]
-        rw [deliver_eq (s.lastID + 1) e c [] s.global hc, hu]
+        rw [deliver_eq (s.lastID + 1) e c [] s.global, hu]
         unfold absObs
         rw [logOf_append, logOf_evs, hfr]
         by_cases hok : u.ok = true
@@ -431,14 +400,13 @@ theorem step_remove (s : State S) (id : Nat) (hI : Inv s) :
     have hbd := hI.bound w hwm
     rw [hwid] at hbd
     simp only [step, hI.run, hg]
-    refine ⟨⟨rfl, ?_, ?_, ?_, ?_⟩, ?_⟩
+    refine ⟨⟨rfl, ?_, ?_, ?_⟩, ?_⟩
     · exact (ids_mapDel_sublist _ _).nodup hI.nodup
     · intro x hx; exact hI.bound x (mem_mapDel.1 hx).1
     · intro i hi
       show logOf i (s.trace ++ [Out.ev id (.closed false)]) = []
       have : ¬ id = i := by intro h; subst h; exact hi hbd
       rw [logOf_append, hI.fresh i hi]; simp [logOf, evOf, this]
-    · intro x hx; exact hI.nr x (mem_mapDel.1 hx).1
     · apply spec_ext
       · rfl
       · rfl
@@ -462,7 +430,7 @@ theorem step_update (s : State S) (e : S → Option S) (ord : List Nat) (hI : In
   | none =>
     simp only [step, hI.run, Spec.step, hdb, he]
     have hl : ∀ i, logOf i ([Out.reply false] : List (Out S)) = [] := fun i => rfl
-    refine ⟨⟨rfl, hI.nodup, hI.bound, ?_, hI.nr⟩, ?_⟩
+    refine ⟨⟨rfl, hI.nodup, hI.bound, ?_⟩, ?_⟩
     · intro i hi
       show logOf i (s.trace ++ [Out.reply false]) = []
       rw [logOf_append, hI.fresh i hi, hl]; rfl
@@ -479,8 +447,7 @@ theorem step_update (s : State S) (e : S → Option S) (ord : List Nat) (hI : In
     have hperm := permBy_perm ord s.watchers
     have hndp : (ids (permBy ord s.watchers)).Nodup :=
       (List.Perm.nodup_iff (List.Perm.map (fun w : Watcher S => w.id) hperm)).2 hI.nodup
-    have hnrp : NR (permBy ord s.watchers) := fun w hw => hI.nr w ((hperm.mem_iff).1 hw)
-    obtain ⟨r1, r2, r3, r4, r5, r6⟩ := rangeUpdate_spec v (permBy ord s.watchers) hndp hnrp
+    obtain ⟨r1, r2, r3, r4, r5⟩ := rangeUpdate_spec v (permBy ord s.watchers) hndp
     have hget : ∀ i, mapGet (permBy ord s.watchers) i = mapGet s.watchers i := fun i => mapGet_perm hperm hndp i
     simp only [step, hI.run, Spec.step, hdb, he, r1, Bool.false_eq_true, ↓reduceIte]
     have hmem : ∀ x, x ∈ (rangeUpdate v (permBy ord s.watchers)).ws → x.id ∈ ids s.watchers := by
@@ -488,7 +455,7 @@ theorem step_update (s : State S) (e : S → Option S) (ord : List Nat) (hI : In
       have h1 : x.id ∈ ids (rangeUpdate v (permBy ord s.watchers)).ws := List.mem_map_of_mem hx
       have h2 := r5.subset h1
       exact ((List.Perm.map (fun w : Watcher S => w.id) hperm).mem_iff).1 h2
-    refine ⟨⟨rfl, ?_, ?_, ?_, r6⟩, ?_⟩
+    refine ⟨⟨rfl, ?_, ?_, ?_⟩, ?_⟩
     · exact r5.nodup hndp
     · intro x hx
       have := hmem x hx
@@ -523,7 +490,7 @@ theorem step_update (s : State S) (e : S → Option S) (ord : List Nat) (hI : In
           rw [hwid] at hbd
           simp only [Option.bind_some, Spec.Obs.notify, upd1]
           have hw : w = ⟨i, w.expr, w.cb⟩ := by cases w; simp at hwid; subst hwid; rfl
-          rw [deliver_eq i w.expr w.cb _ v (hI.nr w hwm), ← hw]
+          rw [deliver_eq i w.expr w.cb _ v, ← hw]
           by_cases hok : (wUpdate w v).ok = true
           · simp [hok]
           · simp [hok, hbd]
@@ -541,7 +508,7 @@ theorem close_spec (s : State S) (ord : List Nat) (hI : Inv s) :
     (List.Perm.nodup_iff (List.Perm.map (fun w : Watcher S => w.id) hperm)).2 hI.nodup
   obtain ⟨c1, c2⟩ := closeAll_spec (permBy ord s.watchers) hndp
   have hget : ∀ i, mapGet (permBy ord s.watchers) i = mapGet s.watchers i := fun i => mapGet_perm hperm hndp i
-  refine ⟨⟨rfl, List.nodup_nil, fun _ h => by simp at h, ?_, fun _ h => by simp at h⟩, ?_⟩
+  refine ⟨⟨rfl, List.nodup_nil, fun _ h => by simp at h, ?_⟩, ?_⟩
   · intro i hi
     show logOf i (s.trace ++ closeAll (permBy ord s.watchers)) = []
     rw [logOf_append, hI.fresh i hi, c1, hget]
@@ -583,21 +550,20 @@ theorem stop_refines (s : State S) (ord : List Nat) (hI : Inv s) :
   simp only [stop, hI.run]
   exact this
 
-theorem step_refines (s : State S) (m : Msg S) (hI : Inv s) (hm : m.noReenter = true) :
+theorem step_refines (s : State S) (m : Msg S) (hI : Inv s) :
     Inv (step s m) ∧ abs (step s m) = Spec.step (abs s) m := by
   cases m with
-  | add e c => exact step_add s e c hI hm
+  | add e c => exact step_add s e c hI
   | remove id => exact step_remove s id hI
   | update e ord => exact step_update s e ord hI
   | hangup ord => exact step_hangup s ord hI
 
-theorem runFrom_refines : ∀ (h : List (Msg S)) (s : State S), Inv s → noReenter h = true →
+theorem runFrom_refines : ∀ (h : List (Msg S)) (s : State S), Inv s →
     Inv (runFrom s h) ∧ abs (runFrom s h) = Spec.runFrom (abs s) h
-  | [], s, hI, _ => ⟨hI, rfl⟩
-  | m :: r, s, hI, hn => by
-    simp only [noReenter, List.all_cons, Bool.and_eq_true] at hn
-    obtain ⟨h1, h2⟩ := step_refines s m hI hn.1
-    obtain ⟨h3, h4⟩ := runFrom_refines r (step s m) h1 hn.2
+  | [], s, hI => ⟨hI, rfl⟩
+  | m :: r, s, hI => by
+    obtain ⟨h1, h2⟩ := step_refines s m hI
+    obtain ⟨h3, h4⟩ := runFrom_refines r (step s m) h1
     refine ⟨h3, ?_⟩
     show abs (runFrom (step s m) r) = Spec.runFrom (Spec.step (abs s) m) r
     rw [h4, h2]
@@ -616,9 +582,9 @@ theorem abs_init (g0 : S) : abs (init g0) = Spec.init g0 := by
   simp only [mapGet_nil]
   exact if_neg this
 
-theorem run_refines (g0 : S) (h : List (Msg S)) (hn : noReenter h = true) :
+theorem run_refines (g0 : S) (h : List (Msg S)) :
     Inv (run g0 h) ∧ abs (run g0 h) = Spec.run g0 h := by
-  have := runFrom_refines h (init g0) (inv_init g0) hn
+  have := runFrom_refines h (init g0) (inv_init g0)
   rw [abs_init] at this
   exact this
 
@@ -683,10 +649,6 @@ theorem runFrom_append (s : State S) (a b : List (Msg S)) : runFrom s (a ++ b) =
   simp [runFrom, List.foldl_append]
 
 end Impl
-
-theorem noReenter_append {S : Type} (a b : List (Msg S)) :
-    noReenter (a ++ b) = true ↔ noReenter a = true ∧ noReenter b = true := by
-  simp [noReenter, List.all_append]
 
 /-! ## the specification in closed form -/
 namespace Spec
@@ -918,14 +880,6 @@ theorem view_reorder (f : List Nat → List Nat) (j : Nat) : ∀ (h : List (Msg 
     | remove i => simp only [List.map_cons, reorder, view]; rw [view_reorder f j r n]
     | update e o => simp only [List.map_cons, reorder, view]; rw [view_reorder f j r n]
     | hangup o => simp only [List.map_cons, reorder, view]; rw [view_reorder f j r n]
-
-theorem noReenter_reorder (f : List Nat → List Nat) : ∀ (h : List (Msg S)), noReenter (h.map (reorder f)) = noReenter h
-  | [] => rfl
-  | m :: r => by
-    have ih := noReenter_reorder f r
-    simp only [noReenter] at ih
-    simp only [noReenter, List.map_cons, List.all_cons, ih]
-    cases m <;> rfl
 
 /-! ### an observer that never fails and is never cancelled hears every installed state -/
 
